@@ -14,9 +14,10 @@ import NV.Driver.Cache
 import NV.Driver.Fwd
 import NV.Driver.Prof
 import NV.Driver.TTL
+import NV.Driver.FS
 namespace NV
 
-def steppers : List (List String → Option String) := [stepCore, stepCap, stepRaceSoak, stepListen, stepUpfault, Disc.stepDiscovery, Config.stepConfig, stepCache, stepFwd, stepProf, stepTTL]
+def steppers : List (List String → Option String) := [stepCore, stepCap, stepRaceSoak, stepListen, stepUpfault, Disc.stepDiscovery, Config.stepConfig, stepCache, stepFwd, stepProf, stepTTL, stepFS]
 
 def step (line : String) : String :=
   let toks := line.splitOn " "
